@@ -11,6 +11,11 @@ Node.MarshalJSON (raw and loaded): each result must equal encoding/json's text, 
 must keep their bytes while later calls run, and results the caller scribbles over must not affect
 later ones; EncodeInto into buffers whose capacity ends at a PROT_NONE page for every capacity
 0..N; decoded values re-read after the caller overwrites its input.
+spec/EncBuf.tla states the reserve-then-write discipline of the emitting sites (fixed items, numbers with reserved width,
+quoted strings whose escaped text outgrows the source: regrow-and-resume, and the second reservation for the closing quote);
+TLC checks "never beyond the capacity" and "same bytes whatever the capacity and prefix" from every initial (capacity, prefix),
+and that the variant without the closing reservation violates it. Binding: a zoo reaching every emitting site, encoded by
+EncodeInto at EVERY capacity from the prefix length to three bytes beyond the text, capacity ending at a PROT_NONE page.
 """
 import json
 import os
@@ -25,8 +30,15 @@ def check(ctx):
     if not mc["ok"]:
         raise vf.Inconclusive("Pool model violates %s" % mc["violated"])
     g = vf.tlc(ctx, "MCPool", "mc/Pool_gen.cfg", name="pool-gen", dump="states", defines={"MAXCALLS": ctx.pick(3, 4), "MUT": "{}"}, timeout=3000)
+    # the overrun half: reserve-then-write discipline of every emitting site (spec/EncBuf.tla), all initial capacities and prefixes
+    eb = vf.tlc(ctx, "EncBuf", "mc/EncBuf.cfg", name="encbuf", defines={"MAXCAP": ctx.pick(40, 120), "MAXPRE": 3, "MUT": "{}"}, timeout=3000, workers=4)
+    if not eb["ok"]:
+        raise vf.Inconclusive("EncBuf model violates %s" % eb["violated"])
+    ebm = vf.tlc(ctx, "EncBuf", "mc/EncBuf.cfg", name="encbuf-mut", defines={"MAXCAP": 40, "MAXPRE": 3, "MUT": '{"NoClosingReserve"}'}, timeout=3000, workers=4)
+    if ebm["violated"] != "Within":
+        raise vf.Inconclusive("the EncBuf variant without the closing reservation does not violate Within")
     sfile = os.path.join(ctx.work, "pool.json")
-    vf.vh(ctx, ["pool", "-dump", g["dump"], "-out", sfile, "-seed", ctx.seed, "-guard", ctx.pick(300, 1500)], timeout=3000)
+    vf.vh(ctx, ["pool", "-dump", g["dump"], "-out", sfile, "-seed", ctx.seed, "-guard", ctx.pick(300, 1500), "-encbufmax", ctx.pick(400, 4000)], timeout=3000)
     s = json.load(open(sfile))
     os.remove(g["dump"])
     for c in s.get("crashes") or []:
@@ -46,19 +58,20 @@ def check(ctx):
         else:
             vf.violation(ctx, "%s at call %s of %s: %s" % (b["kind"], b.get("step"), json.dumps(b.get("hist")), b["detail"][:200]), b)
     cov = {
-        "states": mc["distinct"] + g["distinct"],
-        "transitions": mc["generated"] + g["generated"],
+        "states": mc["distinct"] + g["distinct"] + eb["distinct"],
+        "transitions": mc["generated"] + g["generated"] + eb["generated"],
         "traces_validated_against_impl": s["histories"],
         "evaluations": s["evals"],
         "distinct_nontrivial": s["histories"],
         "rule": "history = sequence of encoding calls (6 entry points x {fits the pool limit, exceeds it} x {post-processing swap on/off}) up to "
                 "the bound; all histories replayed; plus one guarded EncodeInto per capacity 0..N x 4 value/option variants; every history has "
-                "at least one call",
+                "at least one call; EncBuf: every zoo value x 2 option sets x prefixes {0,3} x every capacity up to the text length + 3",
         "samples": (s.get("samples") or [])[:5],
         "exhaustive": True,
         "guarded_buffers": s["guarded_buffers"],
-        "replay": {k: s[k] for k in ("histories", "evals", "guarded_buffers", "bad_by_sig", "wall_s")},
-        "model_check": [{"cfg": r["name"], "distinct": r["distinct"], "generated": r["generated"], "wall_s": r["wall_s"]} for r in (mc, g)],
+        "encbuf_cases": s.get("encbuf_cases"),
+        "replay": {k: s.get(k) for k in ("histories", "evals", "guarded_buffers", "encbuf_cases", "bad_by_sig", "wall_s")},
+        "model_check": [{"cfg": r["name"], "distinct": r["distinct"], "generated": r["generated"], "wall_s": r["wall_s"]} for r in (mc, g, eb)],
     }
     return vf.finish(ctx, "model_checking", cov, assumptions=[
         "LimitBufferSize = 256 and initial buffer sizes = 64 in the replay stand for 1 MiB / 4 KiB (same code paths, public option variables)",
